@@ -41,6 +41,9 @@ class World:
         self.classes = {}
         self.feats = []            # global feature list: (class name, fdesc, feature object)
         late_names = set(case.get('late') or [])
+        # case['bounded']: many-valued features are declared 0..2 instead of 0..* - pyecore does not enforce upper bounds
+        # (validation does, in EMF), so every call must behave exactly as with an unbounded feature
+        many_upper = 2 if case.get('bounded') else -1
         self._late = []
         for c in mm['classes']:
             self.classes[c['name']] = E.EClass(c['name'], abstract=c.get('abstract', False))
@@ -59,10 +62,10 @@ class World:
                     kw = {}
                     if fd.get('default') is not None:
                         kw['default_value'] = self.val(fd['default'])
-                    f = E.EAttribute(fd['name'], et, upper=-1 if fd['many'] else 1,
+                    f = E.EAttribute(fd['name'], et, upper=many_upper if fd['many'] else 1,
                                      ordered=fd.get('ordered', True), unique=fd.get('unique', True), **kw)
                 else:
-                    f = E.EReference(fd['name'], self.classes[t], upper=-1 if fd['many'] else 1,
+                    f = E.EReference(fd['name'], self.classes[t], upper=many_upper if fd['many'] else 1,
                                      ordered=fd.get('ordered', True), unique=fd.get('unique', True),
                                      containment=fd.get('containment', False))
                 if fd['name'] in late_names:
